@@ -607,4 +607,11 @@ def get_current_registers(commands: List[T_Cmd]) -> Set[str]:
         for op in command.operands:
             if isinstance(op, Register):
                 current_registers.add(str(op))
+            elif isinstance(op, ArrayEntry):
+                if isinstance(op.index, Register):
+                    current_registers.add(str(op.index))
+            elif isinstance(op, ArraySlice):
+                for bound in [op.start, op.stop]:
+                    if isinstance(bound, Register):
+                        current_registers.add(str(bound))
     return current_registers
